@@ -5,17 +5,24 @@ from framework.registry import target, job, PROPS, COMMON_ASSUME
 # ---------------------------------------------------------------------------
 target('c11', ['harness/c11_distributed.cpp'])
 
+def mjob(name, tgt, flav, ranks, args=(), **kw):
+    # Every mpirun gets its own Open MPI session directory base: concurrent mpiruns that all create /tmp/ompi.<host>.<uid>
+    # race in mkdir ("A call to mkdir was unable to create the desired directory ... File exists") and die before the harness starts.
+    env = dict(kw.pop('env', {})); env['OMPI_MCA_orte_tmpdir_base'] = '/tmp/vf-ompi/C11-' + name
+    return job(name, tgt, flav, mpi=ranks, args=list(args), env=env, **kw)
+
 def c11_jobs(tier):
     q = tier == 'quick'
     js = []
-    # exhaustive partition pairs: only meaningful on <= 4 ranks (the harness skips the sub-space above)
+    # exhaustive partition pairs: only meaningful on <= 4 ranks (the harness skips the sub-space above); shards are separate jobs (own session dir)
     for r, sh in ((1, 1), (2, 1), (3, 2), (4, 4)):
-        js.append(job('exh-r%d' % r, 'c11', 'mpi-plain', mpi=r, shards=sh, args=['--sub', 'exhaustive'], timeout=3600))
+        for k in range(sh):
+            js.append(mjob('exh-r%d-s%d' % (r, k), 'c11', 'mpi-plain', r, ['--sub', 'exhaustive'] + (['--shard', '%d/%d' % (k, sh)] if sh > 1 else []), timeout=3600))
     ranks = (1, 2, 3, 5, 8) if q else (1, 2, 3, 4, 5, 6, 7, 8)
     for r in ranks:
-        js.append(job('rnd-r%d' % r, 'c11', 'mpi-plain', mpi=r, args=['--sub', 'random'], timeout=3600))
+        js.append(mjob('rnd-r%d' % r, 'c11', 'mpi-plain', r, ['--sub', 'random'], timeout=3600))
     for r in ((3,) if q else (2, 4, 7)):
-        js.append(job('asan-r%d' % r, 'c11', 'mpi-asan', mpi=r, args=['--exh_full=3', '--exh_stride=23'] if q else ['--exh_full=4', '--exh_stride=11'], timeout=3600))
+        js.append(mjob('asan-r%d' % r, 'c11', 'mpi-asan', r, ['--exh_full=3', '--exh_stride=23'] if q else ['--exh_full=4', '--exh_stride=11'], timeout=3600))
     return js
 
 PROPS['C11'] = dict(
